@@ -26,6 +26,7 @@ fn monitors(id: &str) -> Monitors {
         }
         "C09" => m.privkeys = true,
         "C04" => m.reject = true,
+        "C16" => m.external = true,
         _ => {}
     }
     m
@@ -59,6 +60,19 @@ pub fn models(id: &str, tier: &str) -> Vec<HistoryModel> {
         } else {
             v.push(base(vec![WorldCfg::default()], 3, 2, vec![], false));
             v.push(base(vec![alt_cfg()], 3, 1, vec!["S0", "S3", "S4", "S8"], false));
+        }
+        return v;
+    }
+    if id == "C16" {
+        // public handshake messages, external senders extension in the group context
+        let pub_cfg = WorldCfg { external_senders: true, ..Default::default() };
+        let pub_cfg2 = WorldCfg { external_senders: true, tree_ext: false, path_required: true, ..Default::default() };
+        if quick {
+            v.push(base(vec![pub_cfg], 3, 1, vec!["S0", "S2", "S3", "S4", "S8"], false));
+            v.push(base(vec![pub_cfg2], 2, 1, vec!["S0", "S3"], false));
+        } else {
+            v.push(base(vec![pub_cfg], 4, 2, vec![], false));
+            v.push(base(vec![pub_cfg2], 3, 2, vec!["S0", "S3", "S4", "S8", "S10"], false));
         }
         return v;
     }
@@ -135,6 +149,7 @@ pub fn meta(id: &str, tier: &str) -> Meta {
         "C07" => ("same traversal; every Welcome / external-commit joiner is ledger-compared with the members, its key package must still be stored before and be gone after its first write_to_storage (fork), and its first commit must be accepted by all (fork); plus the mismatch matrix and the re-join scenarios", vec!["external-commit", "add-into-interior-blank"]),
         "C08" => ("same traversal; after every commit every member's own exported tree is parsed by the independent reference parser: tree hash from scratch == GroupContext.tree_hash, parent-hash chains valid (reference implementation of RFC 9420 7.9.2), unmerged lists sorted/consistent, no trailing blank, unique keys, new leaves leftmost; one copy per round is validated by a fresh ExternalClient::observe_group", vec!["tree-shrank", "tree-grew", "unmerged-leaf-under-parent", "interior-blank-leaf", "add-into-interior-blank"]),
         "C04" => ("history traversal (one level less deep than C01); in every reached state and for every member: one mutant per framing region (first/last/middle byte bit flips, truncations at field boundaries) of every genuine message deliverable to it (application, proposal, commit, commit with add; public and private wire formats), previous-epoch messages, commits referencing a proposal / PSK / identity the member cannot resolve, and six operations the member fails to build; each on a fork: Err => complete state (hook H1, effective view) unchanged, genuine message afterwards => state equal to a twin's, next send accepted by a peer", vec!["commit-with-unknown-proposal-ref", "psk-commit-m-lacks-psk", "commit-identity-rejected-by-m", "late-failure-at-confirmation-tag"]),
+        "C16" => ("history traversal with public handshake messages and an ExternalSendersExt in the group context; observers are created with ExternalClient::observe_group at every epoch with max_epoch_jitter in {unset, 0, 1, epoch-1, epoch, epoch+1, u64::MAX}; every commit/proposal the members accept is given to every observer (must be accepted; context, roster and exported tree must then equal the members'), every second observer is replaced by snapshot -> load_group after every commit, a copy of every commit with one signature bit flipped and a replay of every commit must be refused, an observer created after a proposal was sent must refuse the commit that references it, application ciphertexts of the last 5 epochs are offered to every observer (let through iff epoch >= current - jitter, saturating; never a panic), and the oldest observer issues external Remove / Add proposals that members must accept and commit", vec!["observer-reloaded", "external-sender-proposal", "observer-lacks-referenced-proposal"]),
         "C09" => ("same traversal; after every commit, for every member each stored private key must open an HPKE seal to the public key of the corresponding node of the exported tree (reference parser), no key for a blank node, and after a commit with path all non-blank nodes on the committer's direct path carry keys absent from the previous tree", vec!["commit-without-path", "interior-blank-leaf", "unmerged-leaf-under-parent"]),
         _ => ("", vec![]),
     };
